@@ -1,4 +1,27 @@
 (* C15Theorems.v — the property theorems of C15 and nothing else. *)
 From V.lib Require Import Base.
 From V.c13 Require Import C13Spec C13Model.
-From V.c15 Require Import C15Model C15Spec.
+From V.c15 Require Import C15Model C15Spec C15BitProofs C15AvcSpsProofs C15Examples.
+
+(* AVC SPS without VUI: for every field assignment accepted by sps_valid (all profiles with and
+   without the chroma/bit-depth/scaling-list block, poc types 0-2, frame/field, cropping for all
+   chroma formats) the parser applied to the NAL unit produced by the independent serialiser
+   returns the coded values, Width/Height by the cropping formula and the byte counters.
+   Full statement (with VUI/HRD): C15_avc_sps below once the VUI lemma is in. *)
+Theorem C15_avc_sps_novui_partial : forall v beyond,
+  sps_valid v = true -> sps_offsets_zero v = true -> vui_parameters_present_flag v = false ->
+  parse_sps_br beyond (nalu_sps v) = Ok (expected_sps beyond v).
+Proof. exact avc_sps_novui. Qed.
+Print Assumptions C15_avc_sps_novui_partial.
+Example C15_avc_sps_novui_hyps :
+  sps_valid ex_sps_novui = true /\ sps_offsets_zero ex_sps_novui = true
+  /\ vui_parameters_present_flag ex_sps_novui = false
+  /\ sps_width (expected_sps true ex_sps_novui) = 1914 /\ sps_height (expected_sps true ex_sps_novui) = 1080.
+Proof. vm_compute. repeat split. Qed.
+
+(* the se(v) elements offset_for_non_ref_pic / offset_for_top_to_bottom_field /
+   offset_for_ref_frame are read with ReadExpGolomb into uint fields *)
+Theorem C15_avc_sps_offsets_refuted :
+  exists v, sps_valid v = true /\ parse_sps_br true (nalu_sps v) <> Ok (expected_sps true v).
+Proof. exists ex_sps_offsets. split; [vm_compute; reflexivity | vm_compute; discriminate]. Qed.
+Print Assumptions C15_avc_sps_offsets_refuted.
